@@ -1,7 +1,8 @@
 /-
   FsModel.OsSub — `SubFS(OSFS)` as coded: the `WrapFS`/`SubFS` methods (fs/wrapfs.py, fs/subfs.py)
   over `FsModel.Os`.  A `SubFS` holds no state of its own but its `closed` flag; every call is
-  `self.check()`, `delegate_path` (= `join(sub_dir, relpath(normpath(path)))`, which is where an
+  `self.check()`, `delegate_path` (= invalid characters of the raw path, then
+  `join(sub_dir, relpath(normpath(path)))`, which is where an `InvalidCharsInPath` /
   `IllegalBackReference` surfaces *before* anything else), and then the same call on the parent
   OSFS with the translated path — except `removedir`/`removetree` (the view's root), `copy`/`copydir`
   (own checks, then `fs.copy.copy_file` / `copy_dir`) and `getinfo` (the root's name is `""`).
@@ -16,6 +17,7 @@
 -/
 import FsModel.Os
 import FsModel.Confine
+import FsModel.Wrap
 
 namespace Fs.OsSub
 open Fs Fs.Path Fs.Ref Fs.Posix
@@ -31,8 +33,10 @@ def outer (view : Node) : Node :=
 
 def inner (t : Node) : Node := (t.get pre).getD (.dir [])
 
-/-- `SubFS.delegate_path` -/
-def delegate (p : Str) : Res Str := Confine.subDelegate subDir p
+/-- `SubFS.delegate_path` as repaired in /repo 6fe32c8 (the parent's `invalid_path_chars` — `"\0"` for
+OSFS — are refused on the raw path, then `Confine.subDelegate`): the one transcription shared with
+the functor model `FsModel.Wrap` -/
+def delegate (p : Str) : Res Str := Wrap.Sub.delegate subDir p
 
 /-- the parent filesystem (always open) holding the view -/
 def parent (s : State) : State := { root := outer s.root, closed := false }
